@@ -563,6 +563,8 @@ def oracle(case, obs):
             c, k, v = op[1], op[2], op[3]
             res = st["res"]
             if res in ("ret0", "ret1"):
+                if exp[c] is None:
+                    exp[c] = {}         # a channel without any configuration took a `set`: its configuration starts here
                 if k != "class":
                     exp[c][k] = v
                     refused[c].pop(k, None)
